@@ -183,6 +183,16 @@ impl<Endpoint: Display + PartialEq + Clone> Subject<Endpoint> {
             .map(|resource| resource.observers.iter().collect())
     }
 
+    /// Verification hook: sets the sequence number of a tracked resource, so
+    /// that behaviour near the end of the 32-bit range can be exercised
+    /// without 2^32 notification rounds.
+    #[cfg(coap_lite_verif)]
+    pub fn verif_set_sequence(&mut self, resource: &str, sequence: u32) {
+        if let Some(resource) = self.resources.get_mut(resource) {
+            resource.sequence = sequence;
+        }
+    }
+
     /// Sets the limit of unacknowledged updates before removing an observer.
     pub fn set_unacknowledged_limit(&mut self, limit: u8) {
         self.unacknowledged_limit = limit;
